@@ -85,6 +85,18 @@ def c20b(ctx, tu):
                    "clause exceptions would surface at the call")
             continue
         n += 1
+        # the handler's two members by role: the shared list of yield expressions (a smart pointer) and the
+        # callable that produces the result
+        LISTF = FUNCF = None
+        for c in tu.cls_by_qe.get(NS + "co_return_handler_t", []):
+            fl = c.get("fields", ())
+            lf = [erase(f["q"]) for f in fl if "shared_ptr" in f["t"]]
+            ff = [erase(f["q"]) for f in fl if "shared_ptr" not in f["t"]]
+            if len(lf) == 1 and len(ff) == 1:
+                LISTF, FUNCF = lf[0], ff[0]
+                break
+        if LISTF is None:
+            LISTF, FUNCF = NS + "co_return_handler_t::yields", NS + "co_return_handler_t::func"
         evs = [(b["id"], subst_event(e, sub)) for b, e in fn.events()]
         yields = [(bid, e) for bid, e in evs if e["e"] == "co_yield"]
         # the compiler-generated fall-through `co_return;` (void promises) sits at the function's own location
@@ -108,13 +120,14 @@ def c20b(ctx, tu):
                     bad = "co_yield is not inside a loop over the yield list"
                 elif l["exit_edges"]:
                     bad = "the yield loop can be left before every CO_YIELD has been produced"
-                elif "yield_expr_base" not in s or "::expr" not in s:
+                elif not any(t[:1] == ["mcall"] and erase(t[2]).startswith(NS + "yield_expr_base::") and t[5] is True
+                             for t in lib.subtrees(ye.get("x"))):
                     bad = "co_yield does not yield the current list element's expression"
                 else:
                     # forwards over the handler's own list: a range-for over *yields, or begin()/++ on it
                     inits = str([e.get("init") for _, e in evs if e["e"] == "decl"])
                     allev = str([{k: v for k, v in e.items() if k != "loc"} for _, e in evs])
-                    if "co_return_handler_t" not in inits or "::yields" not in inits:
+                    if LISTF not in erase(inits):
                         bad = "the loop does not range over the handler's own yield list"
                     elif "operator--" in allev or "rbegin" in allev:
                         bad = "the yield list is not traversed forwards (declaration order)"
@@ -126,13 +139,15 @@ def c20b(ctx, tu):
                         bad = "co_return happens inside the yield loop"
         if bad is None:
             s = str(rets[0][1].get("x"))
-            if "co_return_handler_t" not in s or "::func" not in s:
+            if FUNCF not in erase(s):
                 bad = "co_return does not return the CO_RETURN / CO_THROW expression"
         ctx.ob("C20.b", HANDLER, bad is None, pattern=fn.pat, unit=tu.name, inst=fn.q, detail="" if bad is None else bad)
     # a yield expression evaluates the user's expression on the call's parameters
-    for fn in tu.find(NS + "yield_expr::expr"):
+    for fn in [f for f in tu.fns.values() if f.has_body and f.is_lib and erase(f.rec.get("clsq", "")) == NS + "yield_expr"
+               and f.kind == "method" and f.rec.get("params") and not f.rec.get("special")]:
         rets = [e.get("x") for b, e in fn.events() if e["e"] == "return"]
-        ok = len(rets) == 1 and "yield_expr" in str(rets[0]) and "::e'" in str(rets[0]).replace('"', "'") and "'param', 0" in str(rets[0])
+        ok = len(rets) == 1 and any(t[:1] == ["member"] and erase(t[1]).startswith(NS + "yield_expr::") and t[2] == ["this"]
+                                    for t in lib.subtrees(rets[0])) and "'param', 0" in str(rets[0])
         ctx.ob("C20.b", NS + "yield_expr::expr", ok, pattern=fn.pat, unit=tu.name, inst=fn.q,
                detail="" if ok else "a CO_YIELD clause must evaluate its own expression on the call's parameters")
     return n
